@@ -34,6 +34,8 @@ def legs_simple(pkg, run, qshards, tshards, **kw):
     return f
 
 
+HOME_SWEEP = "home sweep (enumerated in both tiers): a greedy cover of corpus objects gives every registered lint K objects on which its body runs (one passing, one reporting where the corpus has both); every (leaf x type-aware edit) mutant of those objects - OID leaves: OID dictionary harvested from zlint's sources + well-known algorithm/attribute/extension/EKU/policy OIDs (own family + 2 of each other family in quick, all in thorough); integers, times, bit strings, booleans: value lists; other leaves: ~170 hostile strings, edge bytes, re-tagging to 8 string and 11 other universal types, typed replacements - is linted with the lints the object was chosen for (self-signed bases: edit alone and edit + re-signing)"
+
 COMMON_ASSUME = [
     "inputs are those the zcrypto / x-crypto parsers accept (a parser error or a parser panic means: not in the domain)",
     "generated objects come from the v3/testdata corpus, DER-tree edits of it, and builders; shapes none of them reaches stay unexplored",
@@ -44,7 +46,7 @@ CHECKS = {
         "legs": legs_with_mock("^TestC01$", 12, 16, fuzz=True),
         "rule": "rapid: object (cert 70% / CRL 20% / OCSP 10%: corpus, 0-4 DER-tree edits, openers re-date/re-scope, built CRLs/OCSP) x registry "
                 "(nil, global, Filter(generated), Filter of Filter) x configuration (none, empty, example, unrelated, well-typed, ill-typed); plus the whole "
-                "corpus under the default registry (enumerated). Oracle: result-set invariants. Non-trivial = parseable, >=1 result above pass, and bytes edited "
+                "corpus under the default registry (enumerated); " + HOME_SWEEP + " (K=2 quick / 3 thorough) through Lint*Ex. Oracle: result-set invariants. Non-trivial = parseable, >=1 result above pass, and bytes edited "
                 "or registry filtered or configuration given; distinct by hash(DER, filters, config).",
         "assumptions": COMMON_ASSUME + ["'hang' = a single Lint*Ex call exceeding 120 s",
                                          "mock leg: 90 instrumented lints (15 sources x 3 kinds x plain/configurable) registered through the public Register* API in a test binary of their own; "
@@ -53,7 +55,7 @@ CHECKS = {
     "C02": {
         "legs": legs_fuzz("^TestC02$", 14, 16),
         "rule": "corpus + single-leaf-edit sweep (corpus object x leaf x ~190 deterministic edits; strided 1/97 sample in quick, complete in thorough) + rapid multi-edit / "
-                "crossover / opener / built objects, empty configuration, full registry. Oracle: no recovered-panic result, no escaping panic, reference lifecycle "
+                "crossover / opener / built objects, empty configuration, full registry; " + HOME_SWEEP + " (K=2 quick / 4 thorough) with the reference lifecycle next to it. Oracle: no recovered-panic result, no escaping panic, reference lifecycle "
                 "body does not panic, fatal only as the body's own verdict. Non-trivial = parseable, differs from every corpus file, >=1 lint body executed; distinct by hash(DER).",
         "assumptions": COMMON_ASSUME,
     },
@@ -75,7 +77,7 @@ CHECKS = {
     },
     "C06": {
         "legs": legs_simple("props", "^TestC06$", 14, 16),
-        "rule": "every lint run contributes a (lint, status) tally: corpus, rapid edits directed at the home objects of each lint, generated objects with openers. "
+        "rule": "every lint run contributes a (lint, status) tally: corpus, boundary objects of every dated lint, " + HOME_SWEEP + " (K=2), rapid edits directed at the home objects of each lint, generated objects with openers. "
                 "Oracle: status in {pass, NA, NE, fatal} or the one severity the name prefix allows; every registered name has exactly one prefix (enumerated). "
                 "Non-trivial = distinct (lint, status above pass) pair observed.",
         "assumptions": COMMON_ASSUME + ["only executed return paths are observed"],
@@ -111,7 +113,8 @@ CHECKS = {
         "needs_cli": True,
         "rule": "rapid TOML documents (empty, unrelated sections incl. other lint names / global sections / nested tables, well-typed options for the configurable lints discovered at "
                 "run time, ill-typed shapes: scalar / array / array-of-tables / wrong field type / table for a scalar) x home objects of those lints, built CRLs, other corpus objects; "
-                "rapid state machine over registries (SetConfiguration / Filter incl. aliasing / lint) against a model of which configuration each registry holds; the example "
+                "rapid state machine over registries (SetConfiguration / Filter - empty options (alias), excluding one lint, and non-empty options that select everything (name pattern, all sources, all names) - / lint) against a model of which configuration each registry holds; "
+                "enumerated CLI matrix: every configurable lint x its configuration-sensitive objects x selection flags {none, the lint alone, all but another, its source, a name pattern, a foreign source excluded} x {alternative option, empty file, no -config}: the real binary's verdicts must equal the library's under that configuration; the example "
                 "configuration is parsed with go-toml. Non-trivial = document naming a configurable lint (distinct by DER+TOML) or a history with >=2 SetConfiguration.",
         "assumptions": COMMON_ASSUME + ["option semantics modelled for the four configurable lints present today; a new configurable lint is checked against the reference lifecycle only"],
     },
@@ -122,15 +125,15 @@ CHECKS = {
         "rule": "enumerated: every Names() element as sole include and sole exclude (padded), every Sources() element through LintSource.FromString, SourceList.FromString (alone, padded, "
                 "in lists), JSON round trip, Include/ExcludeSources and the real CLI (-includeSources/-excludeSources -list-lints-source; -includeNames/-excludeNames for every 9th name "
                 "in quick, all in thorough), every registered profile; rapid: unknown tokens (case-changed, truncated, suffixed, random) must be rejected by Filter, SourceList.FromString, "
-                "JSON decoding and the CLI. Non-trivial = one listed name/source/profile case or one unknown token; distinct by (what, token, padding).",
+                "JSON decoding and the CLI; every known source (constants harvested from source.go) with stray blanks / separators around it, and generated padded tokens: whatever FromString / SourceList.FromString / JSON decoding accepts must be one of the known sources. Non-trivial = one listed name/source/profile case or one unknown token; distinct by (what, token, padding).",
         "assumptions": ["the CLI binary is built from the working tree by the driver", "no profile is registered today, so the profile leg is vacuous until one is"],
     },
     "C14": {
         "legs": legs_simple("props", "^TestC14$", 14, 16),
         "needs_cli": True,
         "rule": "enumerated: status values -3..12, the eight labels, WriteJSON of the global registry; rapid: result sets from generated objects (biased to names with invalid UTF-8, "
-                "quotes, <>&, NUL so details carry them), synthetic results with arbitrary details bytes x each status, arbitrary label strings, WriteJSON of generated filtered "
-                "registries. Oracle: Unmarshal(Marshal(x)) reproduces keys, status, details (invalid bytes -> U+FFFD), flags, version, timestamp; labels distinct/stable; unknown labels "
+                "quotes, <>&, NUL so details carry them), synthetic results with arbitrary details bytes x each status, arbitrary label strings, arbitrary JSON tokens in the place of a status (numbers, null, booleans, arrays, objects, escaped strings: decoding fails cleanly - never a panic - or yields a label's status), WriteJSON of generated filtered "
+                "registries; result sets whose details carry %, quotes, <>&, control or invalid bytes are also printed by the real CLI (default / -pretty) and decoded. Oracle: Unmarshal(Marshal(x)) reproduces keys, status, details (invalid bytes -> U+FFFD), flags, version, timestamp; labels distinct/stable; unknown labels "
                 "rejected; listing lines decode strictly to name/description/citation/known source. Non-trivial = result set with >=1 non-empty details (distinct by details content), "
                 "a synthetic result, a label or a listing.",
         "assumptions": COMMON_ASSUME,
@@ -138,7 +141,7 @@ CHECKS = {
     "C09": {
         "legs": legs_simple("props", "^TestC09$", 14, 16),
         "rule": "rapid: generated certificates (corpus, 0-3 DER edits, openers) whose issuer differs from the subject x a replacement signature BIT STRING of the same length "
-                "(random, all-zero, all-one, one bit flipped, another corpus certificate's signature of equal length, a fresh well-formed ECDSA-Sig-Value, reversed). Oracle: "
+                "(random, all-zero, all-one, one bit flipped, another corpus certificate's signature of equal length, a fresh well-formed ECDSA-Sig-Value, reversed, a slice of the certificate's own tbsCertificate, one of its own extensions re-encoded (as is / explicit critical FALSE / TRUE / whole list), its own names, validity, serial or key). Oracle: "
                 "identical status and details for every lint, SelfSigned false on both. Non-trivial = signature bits actually differ and >=1 lint body executed; distinct by (DER, DER').",
         "assumptions": COMMON_ASSUME + ["a variant the parser rejects is counted, not judged"],
     },
@@ -148,14 +151,16 @@ CHECKS = {
         "rule": "enumerated: every divisor 2..769 times a 1031-bit prime, bit lengths {1,2,8,512,1023..1025,2040,2047..2049,2056,3071..3073,4096} x exponents {1,2,3,4,65535..65538,2^31-1,2^62+1} "
                 "(a quarter of the base/threshold/exponent grid per seed), genuinely self-signed roots built from 10 committed keys of 1023..4096 bits; rapid: moduli near thresholds, "
                 "uniform 2..4200 bits, multiples of 8 +-1, even, primes around 752 x prime, products of two primes; exponents incl. 2^63-1; Fermat: products of primes whose distance is "
-                "aimed at 0..4000 rounds, Rounds configured at need-1..need+2. Keys are written into the SPKI of home certificates of the 14 lints. Oracle: math/big predicates, applied "
+                "aimed at 0..4000 rounds, Rounds configured at need-1..need+2 - a budget of them also through the real CLI with -config and generated selection flags, plus the enumerated CLI -config matrix for the Fermat lint. Keys are written into the SPKI of home certificates of the 14 lints. Oracle: math/big predicates, applied "
                 "where the reference lifecycle says the lint executed. Non-trivial = (lint, bit length within 1 of a threshold) or (lint, key with the finding) or a Fermat (N, Rounds) case.",
         "assumptions": COMMON_ASSUME + ["Fermat Rounds <= 2000", "perfect squares are excluded from the Fermat must-report direction"],
     },
     "C17": {
         "legs": legs_simple("props", "^TestC17$", 14, 16),
-        "rule": "rapid: certificates whose SAN is rebuilt from 2-8 GeneralNames of every arm (compliant, non-compliant, unparseable; dictionary + corpus donors) x a permutation "
-                "(adjacent transposition, reversal, rotation, Fisher-Yates); generated certificates without duplicate extension OIDs x a permutation of the extension list. Self-signed "
+        "rule": "enumerated in both tiers: every unordered pair of a pool of ~150 GeneralNames of every arm (DNS names incl. letter-case variants, reverse-DNS names of both families, onion, IDN, wildcards; e-mail, URI, IP, other arms) as a two-entry SAN in both orders on the "
+                "subscriber certificate that is home to most name lints - DNS pairs with the common name removed, equal to the first and equal to the second entry; every corpus certificate x 5 fixed permutations of its extension list. "
+                "rapid: certificates whose SAN is rebuilt from 2-8 GeneralNames of every arm (compliant, non-compliant, unparseable; dictionary + corpus donors) x a permutation "
+                "(adjacent transposition, reversal, rotation, Fisher-Yates) x common name (as is, removed, copy / upper-case / lower-case of an entry, unrelated); generated certificates without duplicate extension OIDs x a permutation of the extension list. Self-signed "
                 "bases are re-signed on both sides. Oracle: identical status vector. Non-trivial = non-identity permutation of a pair with >=1 finding; distinct by (DER, DER').",
         "assumptions": COMMON_ASSUME + ["pairs that the parser accepts in one order only are counted, not judged"],
     },
@@ -163,7 +168,7 @@ CHECKS = {
         "legs": legs_simple("props", "^TestC18$", 8, 16),
         "rule": "the TLD table is read as data with go/parser; enumerated in both tiers: well-formedness of every entry, and HasValidTLD for every entry x {delegation, removal} x "
                 "{-1s,0,+1s} x 3 spellings x 3 zones; rapid: labels from table keys (any case), near misses, fixed internal names, random strings x domain shapes x instants (near a "
-                "boundary or uniform 1980-2040); certificates: home objects of e_dnsname_not_valid_tld with generated SAN/CN and notBefore. Oracle: integer model of the statement "
+                "boundary or uniform 1980-2040); certificates: home objects of e_dnsname_not_valid_tld with generated SAN/CN and notBefore, and (enumerated) 27 common names that are or only resemble IP literals (zones, brackets, ports, leading zeros, short forms). Oracle: integer model of the statement "
                 "(ASCII case-insensitive). Non-trivial = (entry, boundary, side, spelling), a missing label, or a generated certificate.",
         "assumptions": ["labels containing non-ASCII bytes are not judged ('case-insensitive' is ambiguous for them)"],
     },
@@ -181,7 +186,8 @@ CHECKS = {
         "rule": "rapid content placed so both members of a pair see the same thing: DNS names (dictionary / random) with CN empty or equal to a SAN entry; identical GeneralNames of all "
                 "arms (incl. hostile bytes) in SAN and IAN; issuer DN = subject DN built from generated RDNs (blanks, multi-valued, every string type); AIA URLs (internal, reserved, odd "
                 "hosts) on certificates in both TLS and S/MIME scope; validity lengths around 397/398 days +-2 s; given name / surname of 1..33000 runes; plus generic generated "
-                "certificates. 23 pairs (20 twins, 3 companions). A pair is judged only when the reference lifecycle shows both bodies executed and the content predicate holds. "
+                "certificates; pair sweep (enumerated): for every pair K corpus certificates on which both members run (1 quick / 5 thorough) x every (leaf x type-aware edit) mutant - alone, with the SAN value then copied into the IAN, "
+                "and with the subject then copied into the issuer - linted with all pair members. 23 pairs (20 twins, 3 companions). A pair is judged only when the reference lifecycle shows both bodies executed and the content predicate holds. "
                 "Non-trivial = judged pair with >=1 finding; distinct by (pair, DER).",
         "assumptions": COMMON_ASSUME + ["'same content' = CN empty/IP/in SAN; exactly one SAN and one IAN extension with identical values; RawSubject == RawIssuer"],
     },
@@ -214,7 +220,7 @@ CHECKS = {
         "needs_cli": True,
         "rule": "rapid invocations of the real cmd/zlint binary built from the working tree: 1-4 inputs (generated certificates, corpus CRLs) x encoding (PEM plain / leading text / CRLF, DER, "
                 "base64 plain / wrapped / trailing newline) x delivery (neutral file + -format, .pem/.der suffix overriding, stdin, '-') x generated selection flags and config file x output "
-                "(default, -pretty, -summary, -longSummary); bad cases: undecodable bytes, truncated DER, bad base64, wrong PEM type, mismatching suffix, unknown names/sources/regexp/profile/"
+                "(default, -pretty, -summary, -longSummary); the enumerated CLI -config matrix of C11; bad cases: undecodable bytes, truncated DER, bad base64, wrong PEM type, mismatching suffix, unknown names/sources/regexp/profile/"
                 "format/config path. Oracle: exit status, one result object (or table) per decodable leading input, equal to the in-process library result for the same selection; summary "
                 "counts equal result counts per level. Non-trivial = invocation with a selection flag or a non-PEM first input; distinct by whole invocation.",
         "assumptions": ["a .pem/.der suffix overrides -format; neutral files are named *.bin", "CRLs are only accepted in PEM armor"],
